@@ -334,7 +334,7 @@ pub fn run(cfg: &Cfg, rep: &mut Report) {
     }
   }
   // random chains
-  let total = cfg.n(20_000, 3_000_000);
+  let total = cfg.n(60_000, 3_000_000);
   let sweep = middle_sweep();
   for i in 0..total {
     let mut r = rng.fork();
